@@ -237,7 +237,7 @@ func factsPatterns(level int) []factsPat {
 		`\w+-(?:a|\.)\.-`, `\w+?-[.-]{1,3}\.`, "(?:ab|a-)+1", "(?:ab|ab-|a)1", "ab1|ab-|a-1", "aba|ab-|abb", "(?i:ab)-", "(?i:a)b", "a(?i:b)a",
 		"(?<x>a)(?<-x>b)", "(?<x>a)+(?<-x>b)+(?(x)-|1)", "(a)?(?(1)b|-)", "(?:a|(b))-?\\1?", "a{1,3}?b", "(?:a+)+b", "(?:a*)+-", "(?:a?){3}a{2}", `(?m:^a)`, `(?m:a$)`, `(?s:a.b)`,
 		`\Aab`, `ab\z`, `ab\Z`, `a\Bb`, `\Ba`, `(?=a)\w+-`, `(?=\w+-)a`, `(?=.*-)a+`, `(?!-)\w*-`, `.+-`, `.*?-a`, `[^a]+a`, `[^-]*-`, `[a-]*-a`, `\w*a\w*-`, `\d*-\d+`,
-		`(a|ab)(c|bcd)?-`, `(?:(a)|b)+-`, `((a)|(b))*-`, `(a*)(b*)-\2\1`}
+		"\uFFFDa", "a\uFFFD", "[ab]\uFFFD-", "\uFFFDab|\uFFFD-", ".\uFFFDb", `(a|ab)(c|bcd)?-`, `(?:(a)|b)+-`, `((a)|(b))*-`, `(a*)(b*)-\2\1`}
 	for _, p := range hand {
 		out = append(out, factsPat{p, true, false})
 	}
@@ -284,7 +284,11 @@ func TestStandinFacts(t *testing.T) {
 	var texts [][]rune
 	factsWords([]rune{'a', 'b', '-', '1'}, maxText, func(w []rune) { texts = append(texts, append([]rune(nil), w...)) })
 	// longer texts for the shapes that need them
-	for _, s := range []string{"a.-b", "abab", "aba1-a2a3-", "ababa", "aab-ab", "  42", "abc;", "dx", "xxabc", "ab-ab-ab", "a1a1-", "11-1", "bab-a", "AB-", "aB-Ab", "a\nb", "a-\n", "\na-", "ab-b-", "aabab", "a1-1-"} {
+	for _, s := range []string{"a.-b", "abab", "aba1-a2a3-", "ababa", "aab-ab", "  42", "abc;", "dx", "xxabc", "ab-ab-ab", "a1a1-", "11-1", "bab-a", "AB-", "aB-Ab", "a\nb", "a-\n", "\na-", "ab-b-", "aabab", "a1-1-",
+		// multi-byte runes: the raw-string filters work on byte offsets
+		"é-a", "aéb", "-é1", "éé-", "a😀-", "1é-a", "😀ab", "bé😀a",
+		// U+FFFD in a text stands for an invalid byte of the string handed to the string API
+		"a\uFFFDb", "\uFFFD-a", "ab\uFFFD", "\uFFFDab-"} {
 		texts = append(texts, []rune(s))
 	}
 	// texts for the shapes with a large fixed count
@@ -486,7 +490,7 @@ func factsOne(re *Regexp, pat string, opt factsOpt, texts [][]rune, report facts
 			}
 		}
 		// end to end: every start offset, rune API and string API against the naive scan
-		str := string(text)
+		str := strings.ReplaceAll(string(text), "\uFFFD", "\xff") // decodes to the same runes
 		byteOff := make([]int, 0, n+1)
 		for i := range str {
 			byteOff = append(byteOff, i)
